@@ -42,7 +42,10 @@ type pair struct {
 	node   [2]*Node
 	closed [2]bool // endpoint closed locally
 	rst    bool
-	link   string // "<srcnode>><dstaddr>"
+	// halfRst[s]: endpoint s has lost the connection (its reads and writes fail with a reset) while the other
+	// endpoint has not been told: a half-open connection
+	halfRst [2]bool
+	link    string // "<srcnode>><dstaddr>"
 	lat    time.Duration
 	tap    *Tap
 	ends   [2]*Conn
@@ -96,7 +99,7 @@ func (c *Conn) Read(b []byte) (int, error) {
 		if c.p.closed[c.side] {
 			return 0, opErr("read", c, net.ErrClosed)
 		}
-		if c.p.rst {
+		if c.p.rst || c.p.halfRst[c.side] {
 			return 0, opErr("read", c, syscall.ECONNRESET)
 		}
 		if len(h.rbuf) > 0 {
@@ -136,7 +139,7 @@ func (c *Conn) Write(b []byte) (int, error) {
 		if c.p.closed[c.side] {
 			return total, opErr("write", c, net.ErrClosed)
 		}
-		if c.p.rst {
+		if c.p.rst || c.p.halfRst[c.side] {
 			return total, opErr("write", c, syscall.ECONNRESET)
 		}
 		if h.fin {
@@ -376,6 +379,25 @@ func (n *Net) ResetPair(id int) {
 	n.mu.Lock()
 	defer n.mu.Unlock()
 	n.resetPairL(n.pairs[id])
+}
+
+// HalfOpenPair makes endpoint side (0 = dialer, 1 = acceptor) of pair id lose the connection - its reads and
+// writes fail with a reset - while the other endpoint is not told anything: nothing it sends arrives any more and
+// nothing arrives for it (connection state lost in a NAT or firewall, peer rebooted without the RST getting through).
+func (n *Net) HalfOpenPair(id, side int) {
+	n.mu.Lock()
+	defer n.mu.Unlock()
+	p := n.pairs[id]
+	if p.rst || p.halfRst[side] {
+		return
+	}
+	p.halfRst[side] = true
+	for _, h := range p.dir {
+		h.blackhole = true
+	}
+	n.Logf("half-open c%d side %d", p.id, side)
+	n.countL("fault.half_open", 1)
+	p.cond.Broadcast()
 }
 
 func (n *Net) resetPairL(p *pair) {
